@@ -523,3 +523,187 @@ func afterSend(fn *ssa.Function, fa *ssa.FieldAddr) bool {
 	})
 	return ok
 }
+
+// C02-R11: the snapshot of a merged request is chosen by age, not by position. Merge / CopyMerge presume that the second
+// operand is the later request. That holds for the requests of the push fan-out (one goroutine commits and enqueues), but a
+// request is built - reading the global snapshot - and enqueued in two steps by the out-of-band producers (ProxyUpdate on the
+// informer goroutines, the debug push): a snapshot committed and fanned out in between is enqueued FIRST, the older one
+// second, and the merge keeps the older one together with the keys of the newer push; the consumer
+// (computeProxyState) installs whatever the request carries. Structural condition decided here: the value stored into the
+// merged request's Push - or a test that guards the store - contains a comparison that sees the snapshots of BOTH operands
+// (one call or one binary operation whose operands reach pr.Push and other.Push; nil tests see one side only), in Merge and
+// in CopyMerge.
+func snapshotComparedByAge(fn *ssa.Function, st *ssa.Store, pushF *types.Var) bool {
+	recv, other := ssa.Value(fn.Params[0]), ssa.Value(fn.Params[1])
+	memo := map[ssa.Value]map[ssa.Value]bool{}
+	found := false
+	var roots func(v ssa.Value, d int) map[ssa.Value]bool
+	roots = func(v ssa.Value, d int) map[ssa.Value]bool {
+		out := map[ssa.Value]bool{}
+		if v == nil || d > 8 {
+			return out
+		}
+		if r, ok := memo[v]; ok {
+			return r
+		}
+		memo[v] = out
+		if fieldOfLoad(v) == pushF {
+			if u, ok := v.(*ssa.UnOp); ok {
+				if fa2, ok := u.X.(*ssa.FieldAddr); ok {
+					out[fa2.X] = true
+				}
+			}
+			return out
+		}
+		add := func(m map[ssa.Value]bool) {
+			for k := range m {
+				out[k] = true
+			}
+		}
+		switch x := v.(type) {
+		case *ssa.Call:
+			for _, a := range x.Call.Args {
+				add(roots(a, d+1))
+			}
+			if out[recv] && out[other] {
+				found = true
+			}
+		case *ssa.BinOp:
+			add(roots(x.X, d+1))
+			add(roots(x.Y, d+1))
+			if out[recv] && out[other] {
+				found = true
+			}
+		case *ssa.Phi:
+			for _, e := range x.Edges {
+				add(roots(e, d+1))
+			}
+			for _, pr := range x.Block().Preds {
+				for b := pr; b != nil; b = b.Idom() {
+					if iff := ifOf(b); iff != nil {
+						roots(iff.Cond, d+1)
+					}
+				}
+			}
+		case *ssa.UnOp:
+			add(roots(x.X, d+1))
+		case *ssa.FieldAddr:
+			add(roots(x.X, d+1))
+		case *ssa.ChangeType:
+			add(roots(x.X, d+1))
+		}
+		return out
+	}
+	roots(st.Val, 0)
+	for b := st.Block().Idom(); b != nil; b = b.Idom() {
+		if iff := ifOf(b); iff != nil {
+			roots(iff.Cond, 0)
+		}
+	}
+	return found
+}
+
+func c02r11(c *Ctx) {
+	p := c.P
+	pushF := p.Field(pkgModel, "PushRequest", "Push")
+	for _, name := range []string{"Merge", "CopyMerge"} {
+		fn := p.Func(pkgModel, "PushRequest", name)
+		if len(fn.Params) < 2 {
+			c.Check(name+": operands found", fn.Pos(), false, "expected receiver and one parameter")
+			continue
+		}
+		found := false
+		eachInstr(fn, func(ins ssa.Instruction) {
+			st, ok := ins.(*ssa.Store)
+			if !ok {
+				return
+			}
+			fa, ok := st.Addr.(*ssa.FieldAddr)
+			if !ok || fieldVar(fa.X.Type(), fa.Field) != pushF {
+				return
+			}
+			found = true
+			c.Check(name+": the merged snapshot is chosen by comparing both operands' snapshots", st.Pos(), snapshotComparedByAge(fn, st, pushF),
+				"the Push of the merged request is taken from the second operand without comparing it with the first one's: a request built from an older snapshot but enqueued later (ProxyUpdate and the debug push read the global snapshot and enqueue in two unlocked steps, concurrently with the push fan-out) replaces the newer snapshot, the proxy is pushed the keys of the newer push from the OLD snapshot, its LastPushContext goes back, and it stays stale until the next push")
+		})
+		if !found {
+			c.Check(name+": store to Push found", fn.Pos(), false, "no store to PushRequest.Push in "+name)
+		}
+	}
+	// ... the consumer does not go back either: a request that was enqueued alone (nothing to merge with) after a newer
+	// snapshot was already pushed to the connection would take it back. In pushConnection / pushConnectionDelta the
+	// request handed to computeProxyState is the result of a function of the package that reads the proxy's
+	// LastPushContext (the guard that serves the request on the proxy's own snapshot when that is newer), not the raw
+	// request of the push event.
+	lpc := p.Field(pkgModel, "Proxy", "LastPushContext")
+	cps := p.FuncObj(pkgXds, "DiscoveryServer", "computeProxyState")
+	for _, name := range []string{"pushConnection", "pushConnectionDelta"} {
+		fn := p.Func(pkgXds, "DiscoveryServer", name)
+		n := 0
+		eachInstr(fn, func(ins ssa.Instruction) {
+			call, ok := ins.(*ssa.Call)
+			if !ok || !isCallTo(call, cps) {
+				return
+			}
+			n++
+			args := call.Call.Args
+			req := args[len(args)-1]
+			guarded := false
+			var leaves []ssa.Value
+			phiLeaves(req, map[ssa.Value]bool{}, &leaves)
+			okAll := len(leaves) > 0
+			for _, l := range leaves {
+				gc, isCall := l.(*ssa.Call)
+				if !isCall {
+					okAll = false
+					continue
+				}
+				sc := gc.Call.StaticCallee()
+				if sc == nil || funcPkgPath(sc) != funcPkgPath(fn) || len(sc.Blocks) == 0 {
+					okAll = false
+					continue
+				}
+				if _, reads := effectsOfFuncs([]*ssa.Function{sc}).Reads[lpc]; !reads {
+					okAll = false
+				}
+			}
+			guarded = okAll
+			c.Check(name+": the request is served on a snapshot not older than the proxy's last one", call.Pos(), guarded,
+				"the push event's request reaches computeProxyState without passing the guard that compares its snapshot with the proxy's LastPushContext: a request built from an older snapshot and enqueued after the newer one was already pushed (nothing left to merge with) installs the older snapshot again and the proxy stays on it until the next push")
+		})
+		if n == 0 {
+			c.Check(name+": computeProxyState call found", fn.Pos(), false, "no call of computeProxyState in "+name)
+		}
+	}
+	// ... and age is never decided by ordering the version labels: PushVersion is "<RFC3339 second>/<decimal counter>", so
+	// the lexicographic order of two labels is not the order of the pushes (".../9" sorts after ".../10")
+	pv := p.Field(pkgModel, "PushContext", "PushVersion")
+	nOrd, nReads := 0, 0
+	for _, fn := range p.AllFuncs {
+		if !strings.HasPrefix(funcPkgPath(fn), istioMod+"/") || strings.HasSuffix(p.Fset.Position(fn.Pos()).Filename, "_test.go") || len(fn.Blocks) == 0 || isWrapperFn(fn) {
+			continue
+		}
+		eachInstr(fn, func(ins ssa.Instruction) {
+			if u, ok := ins.(*ssa.UnOp); ok && fieldOfLoad(u) == pv {
+				nReads++
+			}
+			b, ok := ins.(*ssa.BinOp)
+			if !ok {
+				return
+			}
+			switch b.Op {
+			case token.LSS, token.GTR, token.LEQ, token.GEQ:
+			default:
+				return
+			}
+			if fieldOfLoad(b.X) != pv && fieldOfLoad(b.Y) != pv {
+				return
+			}
+			nOrd++
+			c.Check("push version labels are not ordered: "+stableFnName(fn), b.Pos(), false,
+				"PushContext.PushVersion values are compared with an ordering operator: the label is a second-resolution time stamp, a slash and a decimal counter, so within one second push 10 sorts before push 9 - whatever is decided from this order (which of two snapshots is newer) is wrong for those pushes")
+		})
+	}
+	c.Check("reads of PushContext.PushVersion examined (positive control)", token.NoPos, nReads >= 5, fmt.Sprintf("%d reads of PushVersion examined, %d ordering comparisons", nReads, nOrd))
+	c.Floor(5)
+}
